@@ -94,6 +94,16 @@ mut('C02', 'stdfs_chmod_b_default_nonrecursive', SM, "                follow: fa
 mut('C02', 'stdfs_append_line_no_newline', SM, "            Stdfs::append_all(path, line + \"\\n\")?;", "            Stdfs::append_all(path, line)?;")
 # ---- C18 done separately; C17 done; C19 done; C20 done
 
+# ---- rules added after the fourth batch of seeded changes
+mut('C06', 'stdfs_write_no_truncate', SM, "        Ok(Box::new(File::create(Stdfs::abs(path)?)?))", "        Ok(Box::new(File::options().write(true).create(true).open(Stdfs::abs(path)?)?))")
+mut('C06', 'stdfs_append_truncates', SM, "File::options().append(true)", "File::options().write(true).truncate(true)")
+mut('C06', 'memfs_write_keeps_old_data', MV, "            pos: 0,\n            data: vec![],\n            path: Some(path),", "            pos: 0,\n            data: guard.get_file(&path).map(|f| f.data.clone()).unwrap_or_default(),\n            path: Some(path),")
+mut('C07', 'seek_current_from_len', MF, "            io::SeekFrom::Current(offset) => (self.pos, offset),", "            io::SeekFrom::Current(offset) => (self.data.len() as u64, offset),")
+mut('C07', 'seek_end_from_pos', MF, "            io::SeekFrom::End(offset) => (self.data.len() as u64, offset),", "            io::SeekFrom::End(offset) => (self.pos, offset),")
+mut('C15', 'ext_via_rsplit', PA, "    match path.as_ref().extension() {\n        Some(val) => val.to_string(),", "    match path.as_ref().to_string()?.rsplit_once('.').map(|x| x.1.to_string()) {\n        Some(val) => Ok(val),")
+mut('C17', 'var_name_stops_at_slash_only', PA, "chars.take_while_p(|&x| x != '$' && x != '}')", "chars.take_while_p(|&x| x != '$' && x != '/')")
+mut('C19', 'string_trim_suffix_rfind', 'src/core/string.rs', "        match self.ends_with(&target) {\n            true => self[..self.len() - target.len()].to_owned(),\n            _ => self.to_owned(),\n        }\n    }\n}\n\n/// Provides to_string", "        match self.rfind(&target) {\n            Some(i) => self[..i].to_owned(),\n            _ => self.to_owned(),\n        }\n    }\n}\n\n/// Provides to_string")
+
 
 def main():
     base = subprocess.check_output(['git', '-C', REPO, 'status', '--porcelain', '--', 'src'], text=True).strip()
